@@ -209,8 +209,13 @@ func init() {
 		Funcs: []string{"views.(*ViewPort).ValidateViewX", "views.(*ViewPort).ValidateViewY", "views.(*ViewPort).ValidateView",
 			"views.(*ViewPort).ScrollUp", "views.(*ViewPort).ScrollDown", "views.(*ViewPort).ScrollLeft", "views.(*ViewPort).ScrollRight",
 			"views.(*ViewPort).MakeVisible", "views.(*ViewPort).Center", "views.(*ViewPort).SetSize", "views.(*ViewPort).SetContentSize",
-			"views.(*ViewPort).SetContent", "views.(*ViewPort).Fill", "views.(*ViewPort).Resize"},
-		Trusted: []string{"parent View methods terminate, do not panic and do not touch the ViewPort (assumed interface contracts in spec/trusted/views.spec)"},
+			"views.(*ViewPort).SetContent", "views.(*ViewPort).Fill", "views.(*ViewPort).Resize",
+			"views.(*BoxLayout).hLayout", "views.(*BoxLayout).vLayout", "views.(*BoxLayout).layout", "views.(*BoxLayout).Resize", "views.(*BoxLayout).AddWidget", "views.(*BoxLayout).InsertWidget"},
+		Custom: []func(*PropRun){c20Replays},
+		Trusted: []string{"parent View methods terminate, do not panic and do not touch the ViewPort (assumed interface contracts in spec/trusted/views.spec)",
+			"child Widget methods (Size >= 0, Resize, SetView, Watch, Unwatch, Draw) and the widget event posting terminate and do not touch the BoxLayout (assumed interface contracts)"},
+		Assume: []string{"BoxLayout (THIN): the cells are a slice of pointers to structs holding pointers, outside the verifier's heap model; non-nil cells / child views / widgets are assumed (opt assume-nonnil), the frame clauses cover BoxLayout's own fields only, and nothing is proved about the cells' pad/frac fields or the child views' final geometry",
+			"BoxLayout: NOT decided - every child gets at least its preferred extent, the surplus is distributed exactly and in proportion to the fill factors (float arithmetic in the distribution loop), children stay inside the BoxLayout's own view (ViewPort.Resize clamps), RemoveWidget, SetOrientation, nested layouts"},
 	})
 }
 
@@ -977,6 +982,63 @@ func (t *c06Tty) WindowSize() (WindowSize, error) { return WindowSize{Width: 80,
 			g.ReplayGo = scenario(40, "s.Fini()", "Fini() did not return within 2s: with 40 unpolled keys the input goroutine is blocked sending to the full key channel, which nobody drains after the main loop exits")
 		case strings.HasPrefix(g.Name, "tScreen.(*tScreen).inputLoop/blocking#") && strings.Contains(g.Name, "send:keychan") && strings.HasSuffix(g.Name, "/stops-on-suspend"):
 			g.ReplayGo = scenario(40, "s.Suspend()", "Suspend() did not return within 2s: with 40 unpolled keys the input goroutine is blocked sending to the full key channel")
+		}
+	}
+}
+
+// c20Replays: demonstrations for the BoxLayout call-log clauses (inputs for them cannot be built from a model: the
+// cells are pointer-linked and their non-nil-ness is an assumption of the contract).
+func c20Replays(run *PropRun) {
+	demo := func(orient string) string {
+		return replayTest("views", []string{"github.com/gdamore/tcell/v2"}, `
+	parent := NewViewPort(&c20Screen{w: 40, h: 10}, 0, 0, 40, 10)
+	box := NewBoxLayout(`+orient+`)
+	box.SetView(parent)
+	w1 := &c20Widget{pw: 5, ph: 2}
+	w2 := &c20Widget{pw: 7, ph: 3}
+	box.AddWidget(w1, 0)
+	n1 := w1.resized
+	box.AddWidget(w2, 0) // re-layout: both children are placed again and must both be told
+	if w1.resized != n1+1 || w2.resized < 1 {
+		fail("after adding a second child the first child was told about its rectangle %d time(s) more (want 1), the second %d time(s) (want >= 1)", w1.resized-n1, w2.resized)
+		return
+	}
+	x1, y1, _, _ := w1.view.(*ViewPort).GetPhysical()
+	x2, y2, _, _ := w2.view.(*ViewPort).GetPhysical()
+	if `+map[string]string{"Horizontal": "x1 != 0 || x2 != 5 || y1 != 0 || y2 != 0", "Vertical": "y1 != 0 || y2 != 2 || x1 != 0 || x2 != 0"}[orient]+` {
+		fail("children placed at (%d,%d) and (%d,%d): not in order / not abutting", x1, y1, x2, y2)
+		return
+	}`) + `
+type c20Screen struct{ w, h int }
+
+func (s *c20Screen) SetContent(x, y int, ch rune, comb []rune, st tcell.Style) {}
+func (s *c20Screen) Size() (int, int)                                       { return s.w, s.h }
+func (s *c20Screen) Resize(x, y, w, h int)                                  {}
+func (s *c20Screen) Fill(rune, tcell.Style)                                 {}
+func (s *c20Screen) Clear()                                                 {}
+
+type c20Widget struct {
+	WidgetWatchers
+	pw, ph  int
+	resized int
+	view    View
+}
+
+func (w *c20Widget) Draw()                          {}
+func (w *c20Widget) Resize()                        { w.resized++ }
+func (w *c20Widget) HandleEvent(tcell.Event) bool   { return false }
+func (w *c20Widget) SetView(v View)                 { w.view = v }
+func (w *c20Widget) Size() (int, int)               { return w.pw, w.ph }
+`
+	}
+	for _, g := range run.Groups {
+		switch {
+		case strings.HasPrefix(g.Name, "views.(*BoxLayout).hLayout/calls#"):
+			g.ReplayGo = demo("Horizontal")
+			g.ReplayDir = run.Eng.Repo + "/views"
+		case strings.HasPrefix(g.Name, "views.(*BoxLayout).vLayout/calls#"):
+			g.ReplayGo = demo("Vertical")
+			g.ReplayDir = run.Eng.Repo + "/views"
 		}
 	}
 }
